@@ -16,10 +16,12 @@ class C09(Prop):
     id = "C09"
     title = "No event history or failing task takes the driver down"
     lean_modules = ["NV.C09.Props", "NV.C09.Witness"]
-    theorems = ["NV.C09.only_failing_hb_removed", "NV.C09.error_keeps_other_heart_beats",
+    theorems = ["NV.C09.backend_total", "NV.C09.backend_total_prefix", "NV.C09.freed_conn_never_used_run",
+                "NV.C09.hooks_keep_invariant", "NV.C09.runHook_ok", "NV.C09.errorHandler_same", "NV.C09.cmh_flags",
+                "NV.C09.only_failing_hb_removed", "NV.C09.error_keeps_other_heart_beats",
                 "NV.C09.flags_clear_after_error", "NV.C09.pending_tasks_preserved",
                 "NV.C09.recover_preserves_pending", "NV.C09.callout_sweep_continues_after_error",
-                "NV.C09.freed_conn_never_used", "NV.C09.idle_tick_no_crash", "NV.C09.callMasterHandler_core"]
+                "NV.C09.freed_conn_never_used", "NV.C09.idle_tick_no_crash"]
     witness_theorems = ["NV.C09.connect_error_leaks_record"]
     consts = [("logCatches", "NV_LOG_CATCHES"), ("numConsts", "5")]
     const_headers = ["lib/efuns/options.h"]
@@ -31,11 +33,14 @@ class C09(Prop):
     technique = ("Lean 4 proof (invariant over all finite event histories x error injections, induction on the history and on "
                  "hook-nesting fuel) about an executable control-flow model of backend()/process_io()/error_handler(); "
                  "source tie by regenerated constants and by running the REAL backend() under hook H1 against the model")
-    level_text = ("PARTIAL. Lean 4 theorems about the model `Backend` (nullable all_users, connection records as serials, "
-                  "recovery points, error_handler flag protocol, heart-beat bookkeeping, call_out / reset sweeps, "
-                  "remove_interactive, re-validation after callbacks): no modelled NULL dereference or use of a freed "
-                  "connection record for ANY history and ANY error injection in both modes; flags and error-context chain "
-                  "back at base after every cycle; only the failing heart beat removed; pending tasks of others kept. The "
+    level_text = ("PARTIAL (model level). Lean 4 theorem `backend_total` about the model `Backend` (nullable all_users, "
+                  "connection records as serials, recovery points, error_handler flag protocol with the master handler ok / "
+                  "raising / raising recursively, heart-beat bookkeeping, call_out / reset sweeps, remove_interactive, "
+                  "re-validation after callbacks): for EVERY finite history of external events x EVERY task oracle x both "
+                  "modes the run never reaches a modelled NULL dereference or use of a freed connection record, and after "
+                  "every cycle in_error = in_mudlib_error_handler = false with the error-context chain at its base "
+                  "(invariant preserved by every step, induction on the history and on hook-nesting fuel); only the failing "
+                  "heart beat removed; pending tasks of others kept by the error path. The "
                   "model is tied to the source by running the real backend() loop (loopback TCP clients, console pipe, "
                   "virtual time, scripted failing tasks, master error_handler in three behaviours) on the same histories: "
                   "traces must be identical; the Lean specification oracle judges every implementation trace.")
